@@ -545,4 +545,33 @@ theorem score_roundtrip' (fx : Fixes) (pol : Policy) (batchable tup : Bool) (m :
       · simp [score, scriptedScore, bind, Except.bind, pure, Except.pure]
 
 
+
+
+/-- frame: in any interleaving of calls on two wrappers of one learner, what each wrapper returns is what it returns on
+its own calls alone, from its own state -/
+theorem wrappers_frame' (fx : Fixes) (L : Learner) (h : List (Bool × Arg)) : ∀ (s0 s1 : State) (w : Bool),
+    ((runTwo fx L s0 s1 h).filter (fun x => x.1 == w)).map (·.2) =
+      runOne fx L (if w then s1 else s0) ((h.filter (fun x => x.1 == w)).map (·.2)) := by
+  induction h with
+  | nil => intro _ _ _; rfl
+  | cons x h ih =>
+    intro s0 s1 w
+    obtain ⟨v, a⟩ := x
+    cases v <;> cases w <;> simp only [runTwo, Bool.false_eq_true, ↓reduceIte] <;>
+      (cases hp : predict fx L _ a with
+       | error e =>
+         have i0 := ih s0 s1 false
+         have i1 := ih s0 s1 true
+         simp at i0 i1
+         simp [List.filter, runOne, hp, i0, i1]
+       | ok t =>
+         obtain ⟨r, s'⟩ := t
+         have i0 := ih s' s1 false
+         have i1 := ih s' s1 true
+         have j0 := ih s0 s' false
+         have j1 := ih s0 s' true
+         simp at i0 i1 j0 j1
+         simp [List.filter, runOne, hp, i0, i1, j0, j1])
+
+
 end Coba.C15
